@@ -287,14 +287,21 @@ def pick(rng, tag=None, p_any=0.2):
 
 
 # ---- equality --------------------------------------------------------------------------------
-def approx_eq(a, b, _depth=0):
-    """NaN-aware deep equality that also compares types (1 vs 1.0 vs True differ)."""
+def approx_eq(a, b, _depth=0, sub_ok=False):
+    """NaN-aware deep equality that also compares types (1 vs 1.0 vs True differ).
+    sub_ok: a scalar and an equal instance of a sub/superclass of its type count as equal
+    (True vs 1, MyStr('a') vs 'a') -- 'an equal value' in the sense of C03."""
     if _depth > 80:
         return True
     if a is b:
         return True
     ta, tb = type(a), type(b)
     if ta is not tb:
+        if sub_ok and (issubclass(ta, tb) or issubclass(tb, ta)) and isinstance(a, (int, float, str, bytes)):
+            try:
+                return bool(a == b)
+            except Exception:
+                return False
         return False
     try:
         if isinstance(a, float):
@@ -311,19 +318,19 @@ def approx_eq(a, b, _depth=0):
             for k in a:
                 if k not in b:
                     # allow NaN keys etc: fall back to positional comparison
-                    return all(approx_eq(x, y, _depth + 1) for x, y in zip(a.items(), b.items()))
-                if not approx_eq(a[k], b[k], _depth + 1):
+                    return all(approx_eq(x, y, _depth + 1, sub_ok) for x, y in zip(a.items(), b.items()))
+                if not approx_eq(a[k], b[k], _depth + 1, sub_ok):
                     return False
             return True
         if isinstance(a, (list, tuple, deque)):
-            return len(a) == len(b) and all(approx_eq(x, y, _depth + 1) for x, y in zip(a, b))
+            return len(a) == len(b) and all(approx_eq(x, y, _depth + 1, sub_ok) for x, y in zip(a, b))
         if isinstance(a, (set, frozenset)):
             if len(a) != len(b):
                 return False
             rest = list(b)
             for x in a:
                 for i, y in enumerate(rest):
-                    if approx_eq(x, y, _depth + 1):
+                    if approx_eq(x, y, _depth + 1, sub_ok):
                         del rest[i]
                         break
                 else:
@@ -332,6 +339,64 @@ def approx_eq(a, b, _depth=0):
         return bool(a == b)
     except Exception:
         return a is b
+
+
+_ADDR = __import__("re").compile(r"0x[0-9a-fA-F]+")
+
+
+def same_value(a, b, depth=0):
+    """equal value of the same type (NaN-aware; -0.0 == 0.0).  Objects without value equality
+    (identity __eq__, hostile __eq__) are equal when they have the same type; texts are compared
+    with memory addresses normalised (str() of an identity object)."""
+    if a is b:
+        return True
+    if type(a) is not type(b):
+        return False
+    if depth > 40:
+        return True
+    try:
+        if isinstance(a, Decimal):
+            if a.is_nan() or b.is_nan():
+                return a.is_nan() and b.is_nan()  # comparing a signaling NaN raises
+            return bool(a == b)
+        if isinstance(a, float):
+            return bool(a == b) or (a != a and b != b)
+        if isinstance(a, complex):
+            return same_value(a.real, b.real) and same_value(a.imag, b.imag)
+        if isinstance(a, (str, bytes, bytearray)):
+            if a == b:
+                return True
+            ta = a if isinstance(a, str) else bytes(a).decode("latin-1")
+            tb = b if isinstance(b, str) else bytes(b).decode("latin-1")
+            return _ADDR.sub("0x", ta) == _ADDR.sub("0x", tb)
+        if isinstance(a, collections.abc.Mapping):
+            if len(a) != len(b):
+                return False
+            return all(same_value(x, y, depth + 1) for x, y in zip(a.items(), b.items()))
+        if isinstance(a, (list, tuple, deque)):
+            return len(a) == len(b) and all(same_value(x, y, depth + 1) for x, y in zip(a, b))
+        if isinstance(a, (set, frozenset)):
+            if len(a) != len(b):
+                return False
+            rest = list(b)
+            for x in a:
+                for i, y in enumerate(rest):
+                    if same_value(x, y, depth + 1):
+                        del rest[i]
+                        break
+                else:
+                    return False
+            return True
+        if isinstance(a, collections.abc.Iterator):
+            return True  # cannot compare one-shot results
+        if type(a).__eq__ is object.__eq__ or type(a).__module__.endswith("vmon.values"):
+            d1, d2 = getattr(a, "__dict__", None), getattr(b, "__dict__", None)
+            if isinstance(d1, dict) and isinstance(d2, dict) and not isinstance(a, type):
+                return same_value(d1, d2, depth + 1)
+            return True
+        return bool(a == b)
+    except Exception:
+        return False
 
 
 def loose_eq(a, b):
@@ -386,5 +451,17 @@ def snapshot(v, _depth=0, _memo=None):
     return (t.__name__, id(v))
 
 
-def is_consumable(v):
-    return isinstance(v, (collections.abc.Iterator, io.IOBase))
+def is_consumable(v, _depth=0):
+    """True when v is, or (nested in builtin containers) holds, a one-shot object that parsing consumes"""
+    if isinstance(v, (collections.abc.Iterator, io.IOBase)):
+        return True
+    if _depth > 8:
+        return False
+    try:
+        if isinstance(v, dict):
+            return any(is_consumable(x, _depth + 1) for x in v.values()) or any(is_consumable(x, _depth + 1) for x in v)
+        if isinstance(v, (list, tuple, set, frozenset, deque, type({}.keys()), type({}.values()), type({}.items()))):
+            return any(is_consumable(x, _depth + 1) for x in v)
+    except Exception:
+        return False
+    return False
